@@ -20,6 +20,7 @@
 #include "cppSimpleType.h"
 #include "cppParameterList.h"
 #include "cppIdentifier.h"
+#include "cppTypedefType.h"
 
 /**
  *
@@ -291,13 +292,27 @@ r_unroll_type(CPPType *start_type,
     break;
 
   case IIT_reference:
-    result = new CPPReferenceType(r_unroll_type(start_type, mi),
-                                  CPPReferenceType::VC_lvalue);
-    break;
-
   case IIT_rvalue_reference:
-    result = new CPPReferenceType(r_unroll_type(start_type, mi),
-                                  CPPReferenceType::VC_rvalue);
+    {
+      CPPType *type = r_unroll_type(start_type, mi);
+      CPPReferenceType::ValueCategory vcat = (mod._type == IIT_reference) ?
+        CPPReferenceType::VC_lvalue : CPPReferenceType::VC_rvalue;
+
+      // A reference to a typedef name that denotes a reference collapses.
+      CPPType *target = type;
+      while (target->get_subtype() == CPPDeclaration::ST_typedef) {
+        target = target->as_typedef_type()->_type;
+      }
+      CPPReferenceType *inner = target->as_reference_type();
+      if (inner == nullptr) {
+        result = new CPPReferenceType(type, vcat);
+      } else if (vcat == CPPReferenceType::VC_lvalue &&
+                 inner->_value_category != CPPReferenceType::VC_lvalue) {
+        result = new CPPReferenceType(inner->_pointing_at, vcat);
+      } else {
+        result = type;
+      }
+    }
     break;
 
   case IIT_scoped_pointer:
@@ -320,7 +335,22 @@ r_unroll_type(CPPType *start_type,
     break;
 
   case IIT_const:
-    result = new CPPConstType(r_unroll_type(start_type, mi));
+    {
+      CPPType *type = r_unroll_type(start_type, mi);
+
+      // const applied to a type name that denotes a reference is ignored, as
+      // is a second const.
+      CPPType *target = type;
+      while (target->get_subtype() == CPPDeclaration::ST_typedef) {
+        target = target->as_typedef_type()->_type;
+      }
+      if (target->get_subtype() == CPPDeclaration::ST_reference ||
+          target->get_subtype() == CPPDeclaration::ST_const) {
+        result = type;
+      } else {
+        result = new CPPConstType(type);
+      }
+    }
     break;
 
   case IIT_volatile:
